@@ -430,9 +430,9 @@ def main(tier):
         if c['key'] in seen:
             continue
         seen.add(c['key'])
-        # replay budget: once three counterexamples have reproduced natively and the replays have used more than 300 s (a change under which the real
+        # replay budget: once a counterexample has reproduced natively and the replays have used more than 240 s (a change under which the real
         # integration never converges costs a full time-out per candidate), the remaining candidates are counted, not replayed and not reported
-        if nrep >= 3 and time.time() - t_replay > 300:
+        if nrep >= 1 and time.time() - t_replay > 240:
             chk.cov['candidates_not_replayed_after_budget'] = chk.cov.get('candidates_not_replayed_after_budget', 0) + 1
             continue
         ok, info = replay(chk, c)
